@@ -6,6 +6,8 @@ far above the extent, both algorithms through simplify(track, tolerance, mode). 
 are identified by their (unique) timestamps; point-to-polyline distances are exact rationals.
 """
 import itertools
+
+import numpy as np
 from fractions import Fraction
 
 from mc import alpha
@@ -33,6 +35,7 @@ ASSUMPTIONS = ["ENU tracks, z = 0, strictly increasing unique timestamps 3 s apa
 N_VARIANTS = 4
 
 OBLIGATIONS = {
+    "numpy_scalar_coordinates": "a track whose coordinates are numpy.float64 scalars was simplified",
     "second_call_in_a_row": "a simplification was judged right after another one in the same process",
     "closed_loop": "first and last positions coincide (n >= 3)",
     "consecutive_duplicate": "two consecutive fixes at the same position",
@@ -71,12 +74,14 @@ def _fields(t):
     return (t.year, t.month, t.day, t.hour, t.min, t.sec, t.ms)
 
 
-def _mk_track(variant, ptsl):
+def _mk_track(variant, ptsl, ctype="float"):
+    """ctype: the scalar type the coordinates are stored with (a track built from numpy arrays carries numpy scalars)."""
     t0 = alpha.t0(variant)
+    conv = {"float": float, "np.float64": np.float64, "np.float32": np.float32}[ctype]
     obs = []
     for k, p in enumerate(ptsl):
         x, y = alpha.xy(variant, p[0], p[1])
-        obs.append(Obs(ENUCoords(x, y, 0.0), alpha.obstime(t0 + DT * k)))
+        obs.append(Obs(ENUCoords(conv(x), conv(y), conv(0.0)), alpha.obstime(t0 + DT * k)))
     return Track(obs)
 
 
@@ -101,17 +106,20 @@ def _classify(ptsl, ctx):
     return rep
 
 
-def check_simplify(variant, ptsl, tol_l, algo, ctx, rep=None):
+def check_simplify(variant, ptsl, tol_l, algo, ctx, rep=None, ctype="float"):
     """simplify(track, tolerance, mode) on one lattice track.  tol_l is the tolerance in lattice units."""
     ptsl = [tuple(p) for p in ptsl]
     case = {"op": "simplify", "variant": variant, "pts": [list(p) for p in ptsl], "tol": tol_l, "algo": algo}
+    if ctype != "float":
+        case["ctype"] = ctype
+        ctx.oblige("numpy_scalar_coordinates")
     if rep is None:
         rep = len(set(ptsl)) < len(ptsl)
     ctx.case(rep)
     n = len(ptsl)
     tol = tol_l * alpha.scale(variant)
     pts = [alpha.xy(variant, p[0], p[1]) for p in ptsl]
-    track = _mk_track(variant, ptsl)
+    track = _mk_track(variant, ptsl, ctype)
     stamp = {_fields(track[k].timestamp): k for k in range(n)}
 
     if algo == "douglas_peucker" and n >= 3 and ptsl[0] != ptsl[-1]:
@@ -124,7 +132,7 @@ def check_simplify(variant, ptsl, tol_l, algo, ctx, rep=None):
         rows = []
         for k in range(len(out)):
             o = out[k]
-            rows.append((_fields(o.timestamp), o.position.getX(), o.position.getY()))
+            rows.append((_fields(o.timestamp), float(o.position.getX()), float(o.position.getY())))
         return rows
     st, r = guard(call)
     if st == "hang":
@@ -201,7 +209,7 @@ def replay(case, ctx):
     if case.get("op") == "after":
         f, g = case["first"], case["second"]
         return check_after(case["variant"], (f[0], f[1], f[2]), (g[0], g[1], g[2]), ctx)
-    check_simplify(case["variant"], case["pts"], case["tol"], case["algo"], ctx)
+    check_simplify(case["variant"], case["pts"], case["tol"], case["algo"], ctx, ctype=case.get("ctype", "float"))
 
 
 def probe():
@@ -245,6 +253,7 @@ def plan(tier, variant):
 
 
 AFTER_TOLS = [0.01, 10.0]
+NUMPY_NMAX = 4
 
 
 def run_shard(shard, ctx):
@@ -283,6 +292,8 @@ def run_shard(shard, ctx):
             for tol in tols:
                 for algo in algos:
                     check_simplify(v, ptsl, tol, algo, ctx, rep)
+                    if n <= NUMPY_NMAX:           # the same track with its coordinates stored as numpy scalars
+                        check_simplify(v, ptsl, tol, algo, ctx, rep, ctype="np.float64")
             done += 1
             if done == 7:
                 ctx.sample({"track": [list(p) for p in ptsl], "tolerances_lattice_units": tols, "algorithms": algos, "variant": v})
